@@ -39,6 +39,15 @@ func goVal(n int) any {
 		return v
 	}
 	var v any
+	if n == 1007 || n == 1008 { // payload values whose dynamic type is flyt.Action (the empty action, and a non-empty one): data like any other
+		if n == 1007 {
+			v = flyt.Action("")
+		} else {
+			v = flyt.Action("go")
+		}
+		valTab[n] = v
+		return v
+	}
 	if n >= 1001 && n <= 1006 { // typed nils: one token per type (all nil values of one type are the same value); 1005/1006: payloads whose type implements error
 		switch n {
 		case 1005:
